@@ -140,6 +140,29 @@ let run_apply id =
       let ts = Stdlib.List.sort (fun a b -> compare (string_of_bytes a.et_name) (string_of_bytes b.et_name)) d'.d_tables in
       Stdlib.List.iter (fun t -> Printf.printf "%s %s\n" id (show_table tabs t)) ts
 
+let hn b = hexs (string_of_bytes b)
+
+let show_stmt = function
+  | SPragmaFK on -> if on then "PF 1" else "PF 0"
+  | SCreateTable t -> "CT " ^ hn t.td_name
+  | SDropTable n -> "DT " ^ hn n
+  | SRenameTable (a, b) -> "RT " ^ hn a ^ " " ^ hn b
+  | SCopyRows (to_t, toC, fromC, from_t) ->
+      "CR " ^ hn to_t ^ " [" ^ String.concat "," (Stdlib.List.map hn toC) ^ "] ["
+      ^ String.concat "," (Stdlib.List.map (function ECol n -> "C:" ^ hn n | EIfNull (n, _) -> "I:" ^ hn n) fromC)
+      ^ "] " ^ hn from_t
+  | SAddColumn (t, c) -> "AC " ^ hn t ^ " " ^ hn c.rc_name
+  | SRenameColumn (t, a, b) -> "RC " ^ hn t ^ " " ^ hn a ^ " " ^ hn b
+  | SCreateIndex (t, i) -> "CI " ^ hn t ^ " " ^ hn i
+  | SDropIndex i -> "DI " ^ hn i
+
+let run_plan id =
+  let nc = next_int () in
+  let cs = times nc parse_schange in
+  match planChanges cs with
+  | PErr _ -> Printf.printf "%s planerr\n" id
+  | POk l -> Printf.printf "%s plan %s\n" id (String.concat " ; " (Stdlib.List.map show_stmt l))
+
 let () =
   let mode = if Array.length Sys.argv > 1 then Sys.argv.(1) else "apply" in
   (try
@@ -152,6 +175,7 @@ let () =
         (try
           match mode with
           | "apply" -> run_apply id
+          | "plan" -> run_plan id
           | m -> failwith ("mode " ^ m)
         with e -> Printf.printf "%s driver-error %s\n" id (Printexc.to_string e))
       end
